@@ -351,6 +351,7 @@ def execute(plan, rec):
         seams.install_simset()
         seams.SimSet.order_seed = 0
         seams.SimSet.iterations = 0
+        seams.SimSet.permuted = 0
 
     def snapshot():
         return [None if d is None else _triple_of(d) for d in defs]
@@ -473,7 +474,6 @@ def execute(plan, rec):
         if kind == 'set_order':
             if use_simset:
                 seams.SimSet.order_seed = ev[1]
-                rec.fault('set_order_permutation')
             rec.log('ok')
             continue
         if kind == 'd_new':
@@ -667,6 +667,7 @@ def execute(plan, rec):
 
     if use_simset:
         rec.probe('simset_orders_consumed', seams.SimSet.iterations)
+        rec.fault('set_order_permutation', seams.SimSet.permuted)
         seams.uninstall_simset()
     return rec
 
